@@ -6,7 +6,6 @@ package beacon
 import (
 	"errors"
 	"fmt"
-	"maps"
 	"sort"
 	"sync"
 	"sync/atomic"
@@ -815,10 +814,14 @@ func (b *beacon) Reset() {
 func (b *beacon) PushManyFromMap(treasures map[string]treasure.Treasure) {
 	b.mu.Lock()
 	defer b.mu.Unlock()
-	maps.Copy(b.treasuresByKeys, treasures)
-	// add elements to the ordered treasure if there is any ordered treasures
-	if b.isOrdered {
-		for _, treasureObj := range treasures {
+	// a key that is already present (added by a save while the index was being
+	// built) must not get a second entry in the ordered slice
+	for key, treasureObj := range treasures {
+		if _, ok := b.treasuresByKeys[key]; ok {
+			continue
+		}
+		b.treasuresByKeys[key] = treasureObj
+		if b.isOrdered {
 			b.treasuresByOrder = append(b.treasuresByOrder, treasureObj)
 		}
 	}
